@@ -24,10 +24,6 @@ func main() {
 	cases := fs.Int("cases", 2000, "number of cases")
 	_ = fs.Parse(os.Args[2:])
 	switch os.Args[1] {
-	case "smoke":
-		smoke()
-	case "smoke2":
-		smoke2()
 	case "init-state":
 		initState(*out)
 	case "replay-claims":
